@@ -103,3 +103,29 @@ theorem C06_a_starting_handler_is_exclusive (ls : List Label) (w w' : World) (hs
 
 end Thm
 end Bubus
+
+namespace Bubus.Thm
+
+/-- **C02 (second clause), for every reachable state of serial buses**: when a handler starts, no handler of another event
+    of that bus — indeed no other handler at all — is running un-suspended: a bus does not start a later event while a
+    handler of an earlier one is still running, other than while that handler is suspended awaiting an event. -/
+theorem C02_serial_bus_starts_no_handler_beside_a_running_one (ls : List Label) (w w' : World) (hser : SerialRun ls)
+    (hrun : run {} ls = some w) (j : IId) (hs : step w (.hStart j) = some w') : C02.serialNoOverlap w' j = true := by
+  have hI := minv_run {} w ls minv_init hser hrun
+  have hI' := minv_step w w' (.hStart j) hI rfl hs
+  obtain ⟨hg, rfl⟩ := step_some hs
+  have hj : cs ((apply w (.hStart j)).inst j).st = .busy := by
+    simp [apply, apply0, World.modInst, cs]
+  simp only [C02.serialNoOverlap, Bool.or_eq_true, Bool.not_eq_true', List.any_eq_false, Bool.and_eq_true, bne_iff_ne,
+    beq_iff_eq, not_and]
+  right
+  intro i1 _ hne hst
+  have hne := hne.1.1
+  have hb : cs ((apply w (.hStart j)).inst i1).st = .busy := by rw [hst]; rfl
+  have h1 := only_top_busy _ hI' i1 hb
+  have h2 := only_top_busy _ hI' j hj
+  rw [h1] at h2
+  injection h2 with h2
+  exact hne h2
+
+end Bubus.Thm
